@@ -114,6 +114,10 @@ def build(sess, name="x"):
                 add("preset %s %s %d %d" % (ep, conn, sub, data), ("setup2", None))
             elif op == "reconnect":
                 break      # a second transport from the same address: outside this trace
+            elif op == "close":
+                ep, conn = (C, "c") if side == "c" else (S, srv_key)
+                add("advance %s %d" % (ep, tk), ("advance", side))
+                add("close %s %d %s" % (ep, tk, conn), ("op", side, tk))
             elif op == "disconnect":
                 add("advance %s %d" % (C, tk), ("advance", "c"))
                 add("disconnect %s %d c" % (C, tk), ("op", "c", tk))
